@@ -31,6 +31,8 @@ type largeFixture struct {
 	headers []int // offsets of the member headers
 	sizes   []int // data sizes of the members
 	trailer int   // offset of the end-of-archive marker
+	db      dbm.DB
+	leaves  [][]byte // record keys
 }
 
 var (
@@ -64,13 +66,18 @@ func buildLarge() (*largeFixture, error) {
 			return nil, err
 		}
 	}
-	f := &largeFixture{height: 2}
+	f := &largeFixture{height: 2, db: db}
 	var buf bytes.Buffer
 	if f.root, err = s.WriteSnapshot2(f.height, &buf); err != nil {
 		return nil, err
 	}
 	f.archive = buf.Bytes()
 	f.dump = stateDump(s)
+	nodes, err := archiveNodes(f.archive)
+	if err != nil {
+		return nil, err
+	}
+	f.leaves = leafKeys(nodes)
 	// walk the ustar framing
 	off := 0
 	for off+512 <= len(f.archive) {
@@ -108,12 +115,22 @@ func TestLargeSnapshotCorruption(t *testing.T) {
 			member = len(f.headers) - 1
 		}
 		kind := rapid.SampledFrom([]string{"header-byte", "header-byte", "trailer-byte", "data-byte", "cut-in-header", "cut-at-member", "cut-anywhere", "cut-in-trailer",
-			"drop-member", "dup-member", "swap-members", "pristine"}).Draw(t, "damage")
+			"drop-member", "dup-member", "swap-members", "pristine", "inner-key"}).Draw(t, "damage")
 		hdr, end := f.headers[member], f.trailer
 		if member+1 < len(f.headers) {
 			end = f.headers[member+1]
 		}
+		// an accepted import must also be the exported TREE: new export = the archive, same roots after the same next blocks
+		deep := &deepCheck{pristine: f.archive, leaves: f.leaves, ref: func() (*state.StateDB, error) { return copyState(f.db, f.height) }}
 		switch kind {
+		case "inner-key":
+			// the key of a drawn inner node (any member) is altered: not covered by the tree hashes
+			altered, genuine, changed, how := alterInnerKey(t, f.archive)
+			if altered == nil {
+				t.Fatalf("fixture has no inner node")
+			}
+			c, deep = altered, deep.withGap(genuine, changed)
+			kind += "." + how
 		case "header-byte":
 			off := hdr + rapid.IntRange(0, 511).Draw(t, "off")
 			c[off] ^= byte(1 << uint(rapid.IntRange(0, 7).Draw(t, "bit")))
@@ -152,7 +169,7 @@ func TestLargeSnapshotCorruption(t *testing.T) {
 			prev := f.headers[member-1]
 			c = append(append(append(append([]byte{}, c[:prev]...), c[hdr:end]...), c[prev:hdr]...), c[end:]...)
 		}
-		accepted := checkImport(t, fmt.Sprintf("large archive (%d members), %s at member %d", len(f.headers), kind, member), c, f.height, f.root, f.dump)
+		accepted := checkImportDeep(t, fmt.Sprintf("large archive (%d members), %s at member %d", len(f.headers), kind, member), c, f.height, f.root, f.dump, deep)
 		if kind == "pristine" && !accepted {
 			t.Fatalf("pristine large archive refused")
 		}
@@ -161,7 +178,7 @@ func TestLargeSnapshotCorruption(t *testing.T) {
 		} else {
 			evid.Count("large." + kind + ".refused_clean")
 		}
-		if member > 0 && kind != "pristine" {
+		if member > 0 && kind != "pristine" && !strings.HasPrefix(kind, "inner-key") {
 			evid.Count("large.damage_behind_flushed_nodes")
 			evid.NonTrivial(fmt.Sprintf("large|%s|m%d|%v|%d", kind, member, accepted, len(c)%4096))
 		}
